@@ -181,39 +181,69 @@ def reduced_ops():
     ]
 
 
+def reduced_ops4():
+    """a smaller set for the length-4 enumeration of the thorough tier: one instance per op family"""
+    return [
+        "addcomponent 0 2", "addcomponent 0 3", "addcomponent 2 3", "addcomponent 3 2",
+        "removecomponent_p 0 3 true", "removecomponent_i 0 0", "takecomponent_n 0 %s true" % S("a"),
+        "replacecomponent_i 0 0 3", "replacecomponent_p 0 2 4 true", "removeallcomponents 0",
+        "addvariable 2 6", "addvariable 2 7", "addvariable 3 7", "removevariable_p 2 7", "removevariable_n 2 %s" % S("x"), "takevariable_i 2 0",
+        "addreset 2 12", "addreset 3 12", "removereset_p 2 13",
+        "addunits 0 10", "addunits 1 10", "removeunits_p 0 11", "replaceunits_i 0 0 11", "takeunits_n 0 %s" % S("u"),
+        "addequivalence 6 7", "removeequivalence 7 6", "removeallequivalences 6", "setunits_p 6 10", "setvariable 12 6",
+        "release 2", "release 6", "release 0",
+    ]
+
+
+def op_slots(o):
+    """the slots an op names (receiver and entity arguments; indices are not slots)"""
+    t = o.split()
+    if t[0].endswith("_i") or t[0] == "takereset":
+        return [int(t[1])] + [int(x) for x in t[3:] if x.isdigit()]
+    return [int(x) for x in t[1:] if x.isdigit()]
+
+
 def uses_released(ops):
     """script.hpp refuses a released slot (ERR, nothing called): such sequences are not API histories"""
     rel = set()
     for o in ops:
-        t = o.split()
-        args = [int(x) for x in t[1:] if x.isdigit()]
-        # positions that are indices, not slots
-        if t[0].endswith("_i") or t[0] == "takereset":
-            slots = [int(t[1])] + [int(x) for x in t[3:] if x.isdigit()]
-        else:
-            slots = args
-        if any(s in rel for s in slots):
+        if any(s in rel for s in op_slots(o)):
             return True
-        if t[0] == "release":
-            rel.add(int(t[1]))
+        if o.startswith("release "):
+            rel.add(int(o.split()[1]))
     return False
 
 
-def exhaustive(setup, alphabet, n, last=None):
-    """all sequences of n ops over alphabet (the last op from `last` when given) after the set-up prefix"""
-    pre = "@%d;" % len(setup) + ";".join(setup) + (";" if setup else "")
-    released0 = [o for o in setup if o.startswith("release")]
-    for t in itertools.product(*([alphabet] * (n - 1) + [last if last is not None else alphabet])):
-        if uses_released(released0 + list(t)):
-            continue
-        yield pre + ";".join(t)
+SETUPS = dict(START)
+
+
+def exhaustive(name, alphabet, n, last=None):
+    """all sequences of n ops over alphabet (the last op from `last` when given) after the named set-up"""
+    pre = "@%s;" % name
+    rel0 = frozenset(int(o.split()[1]) for o in SETUPS[name] if o.startswith("release "))
+    info = {}
+    for o in set(alphabet) | set(last or []):
+        info[o] = (frozenset(op_slots(o)), int(o.split()[1]) if o.startswith("release ") else None)
+
+    def rec(prefix, rel, k):
+        pool = last if (k == n - 1 and last is not None) else alphabet
+        for o in pool:
+            sl, r = info[o]
+            if sl & rel:
+                continue
+            if k == n - 1:
+                yield pre + ";".join(prefix + [o])
+            else:
+                yield from rec(prefix + [o], rel | {r} if r is not None else rel, k + 1)
+    yield from rec([], rel0, 0)
 
 
 WEIGHTED = None
 
 
-def random_sequence(rng, setup, n):
+def random_sequence(rng, name, n):
     """n random ops over the whole universe; released slots are not used again"""
+    setup = SETUPS[name]
     E = MODELS + COMPS
     live = set(range(len(UNIVERSE)))
     for o in setup:
@@ -311,5 +341,4 @@ def random_sequence(rng, setup, n):
             h = rng.choice(c)
             live.discard(h)
             ops.append("release %d" % h)
-    pre = "@%d;" % len(setup) + ";".join(setup) + (";" if setup else "")
-    return pre + ";".join(ops)
+    return "@%s;" % name + ";".join(ops)
